@@ -45,6 +45,8 @@ def shards(tier, seed):
         out.append(dict(name="pal6/q%d" % ql, kind="pal", ncols=6, ql=ql, first=None, weight=6 ** ql * 300))
     out.append(dict(name="shapes", kind="shapes", weight=5000))
     out.append(dict(name="many_targets", kind="many", weight=6000))
+    out.append(dict(name="alphabets", kind="alphabets", weight=4000))
+    out.append(dict(name="many_queries", kind="many_queries", numba_threads=4, weight=4000))
     return out
 
 
@@ -82,6 +84,8 @@ def check_case(rec, TT, Qc, Tcs, n_bins, rc, stats, hashing=False):
     allT = Ts + ([t[::-1, ::-1] for t in Ts] if rc else [])
     T = numpy.concatenate(allT, axis=1)
     case = dict(fn="tomtom", query=list(Qc), targets=[list(t) for t in Tcs], n_score_bins=n_bins, reverse_complement=rc, hashing=hashing)
+    if Q.shape[0] != 4:
+        case["alphabet_rows"] = int(Q.shape[0])
     if degenerate(Q, T):
         stats["degenerate_skipped"] += 1
         return
@@ -302,8 +306,85 @@ def run_many(rec, tier, seed):
     rec.sample(dict(kind="many_targets", n_targets=[300, 40, 1200], query_lengths=[1, 4, 25, 2, 9, 7], columns="6 grid + 60 generic (Dirichlet) columns"))
 
 
+def run_alphabets(rec, tier, seed):
+    """Alphabets with 2, 3, 5, 6 and 20 rows (protein motifs, extended nucleotide alphabets): same reference, same checks."""
+    from tangermeme.tools import tomtom as TT
+    global PALETTE
+    stats = dict(pairs=0, nontrivial=0, degenerate_skipped=0, pairs_score0=0, pairs_bin0_mass=0, pairs_general=0)
+    old = PALETTE
+    try:
+        for Arows in (2, 3, 5, 6, 20):
+            rs = numpy.random.RandomState(7 + seed + Arows)
+            eye = numpy.eye(Arows)
+            pal = [list(eye[i]) for i in range(min(Arows, 6))] + [list(numpy.full(Arows, 1.0 / Arows))]
+            pal += [list((eye[i] + eye[(i + 1) % Arows]) / 2) for i in range(min(Arows, 3))]
+            # columns that agree on the first four rows and differ only beyond them
+            if Arows > 4:
+                a_ = numpy.zeros(Arows); a_[0] = .5; a_[4] = .5
+                b_ = numpy.zeros(Arows); b_[0] = .5; b_[Arows - 1] = .5
+                pal += [list(a_), list(b_)]
+            pal += [list(rs.dirichlet([0.7] * Arows)) for _ in range(6)]
+            PALETTE = pal
+            n = len(pal)
+            for ql in (1, 2, 4):
+                for k in range(6):
+                    q = [int(rs.randint(0, n)) for _ in range(ql)]
+                    Ts = [[int(rs.randint(0, n)) for _ in range(int(rs.randint(1, 5)))] for _ in range(6)] + [q]
+                    for rc in (False, True):
+                        check_case(rec, TT, q, Ts, 100, rc, stats)
+                        rec.case(1, 1)
+    finally:
+        PALETTE = old
+    for k, v in stats.items():
+        rec.count(k, v)
+    rec.sample(dict(kind="alphabets", rows=[2, 3, 5, 6, 20], query_lengths=[1, 2, 4], columns="unit, uniform, two-letter, beyond-row-4, Dirichlet"))
+
+
+def run_many_queries(rec, tier, seed):
+    """More than 1024 queries in one call: row i of the result is the result of query i (checked against the reference when run alone)."""
+    from tangermeme.tools import tomtom as TT
+    global PALETTE
+    stats = dict(pairs=0, nontrivial=0, degenerate_skipped=0, pairs_score0=0, pairs_bin0_mass=0, pairs_general=0)
+    rs = numpy.random.RandomState(67 + seed)
+    old = PALETTE
+    try:
+        PALETTE = old + [list(rs.dirichlet([0.6] * 4)) for _ in range(30)]
+        n = len(PALETTE)
+        Ts = [[int(rs.randint(0, n)) for _ in range(int(rs.randint(1, 7)))] for _ in range(9)]
+        for nQ in ((1100,) if tier == "quick" else (1100, 2100, 70000)):
+            qs = [[int(rs.randint(0, n)) for _ in range(1 + (i * 7) % 5)] for i in range(nQ)]
+            for rc in (True, False):
+                st, big = call(TT.tomtom, [motif(q) for q in qs], [motif(t) for t in Ts], n_target_bins=None, reverse_complement=rc, n_jobs=4)
+                case = dict(fn="tomtom", n_queries=nQ, targets=[list(t) for t in Ts], reverse_complement=rc, generator="rs(67+seed)")
+                rec.case(1, 1)
+                if st != "ok":
+                    rec.violation("tomtom:raises:many_queries", case, observed=big)
+                    continue
+                big = [b.numpy() for b in big[:5]]
+                probe = [0, 1, 255, 256, 1023, 1024, 1025, nQ - 1] + [i for i in (2047, 2048, 65535, 65536, 65537) if i < nQ]
+                for i in probe:
+                    res = check_case(rec, TT, qs[i], Ts, 100, rc, stats)
+                    if res is None:
+                        continue
+                    one = [r.numpy()[0] for r in res[:5]]
+                    if any(not numpy.array_equal(big[k][i], one[k]) for k in range(5)):
+                        rec.violation("tomtom:row_of_large_call_differs_from_single_query_call", dict(case, query_index=i, query=qs[i]),
+                                      expected=[o.tolist() for o in one[:2]], observed=[big[k][i].tolist() for k in range(2)])
+    finally:
+        PALETTE = old
+    for k, v in stats.items():
+        rec.count(k, v)
+    rec.sample(dict(kind="many_queries", n_queries=[1100], probes="0,1,255,256,1023,1024,1025,last"))
+
+
 def run_shard(sh, tier, seed):
     rec = Recorder(PID, sh["name"])
+    if sh["kind"] == "alphabets":
+        run_alphabets(rec, tier, seed)
+        return rec.result()
+    if sh["kind"] == "many_queries":
+        run_many_queries(rec, tier, seed)
+        return rec.result()
     if sh["kind"] == "many":
         run_many(rec, tier, seed)
         return rec.result()
@@ -319,6 +400,14 @@ def replay(v):
     c = v["case"]
     rec = Recorder(PID, "replay")
     stats = dict(pairs=0, nontrivial=0, degenerate_skipped=0, pairs_score0=0, pairs_bin0_mass=0, pairs_general=0)
+    if "n_queries" in c:
+        run_many_queries(rec, "quick", 0)
+        hit = [x for x in rec.violations if x["sig"] == v["sig"]]
+        return (not hit), "re-ran the many-queries family: %d violations with signature %s" % (len(hit), v["sig"])
+    if c.get("alphabet_rows"):
+        run_alphabets(rec, "quick", 0)
+        hit = [x for x in rec.violations if x["sig"] == v["sig"]]
+        return (not hit), "re-ran the alphabets family: %d violations with signature %s" % (len(hit), v["sig"])
     if any(i >= len(PALETTE) for i in c.get("query", [])) or any(i >= len(PALETTE) for t in c.get("targets", []) if not isinstance(c.get("targets"), str) for i in t):
         run_many(rec, "quick", 0)
         hit = [x for x in rec.violations if x["sig"] == v["sig"]]
